@@ -1,5 +1,293 @@
-"""minimisation of failing cases (placeholder: identity until the passes are written)"""
+"""Minimisation of failing cases: every candidate is re-executed in fresh child processes and kept iff the same
+oracle of the same class still fails. Passes: drop lifetimes, drop episodes, drop ops, simplify op arguments,
+re-render in plain units, structural spec shrinking (on plain renderings). Budget: <= 300 executions or 90 s."""
+import copy
+import time
+
+from . import runner
+from .models import Model
+from .profiles import common as C
 
 
-def minimise(prof, case, v, libs, timeout):
-    return case, v
+class Budget:
+    def __init__(self, runs=300, seconds=90.0):
+        self.runs = runs
+        self.deadline = time.time() + seconds
+        self.used = 0
+
+    def ok(self):
+        return self.used < self.runs and time.time() < self.deadline
+
+
+def _same(v, target):
+    return v.get("oracle") == target[0] and v.get("class") == target[1]
+
+
+def _droppable_lifetimes(prof, case):
+    if hasattr(prof, "droppable_lifetimes"):
+        return prof.droppable_lifetimes(case)
+    pid = case.get("property")
+    if pid == "C08":
+        return list(range(1, len(case["lifetimes"])))
+    return []
+
+
+def _shrinkable_lifetimes(prof, case):
+    """lifetimes whose episodes/ops may be removed"""
+    pid = case.get("property")
+    if pid in ("C10", "C11"):
+        return [len(case["lifetimes"]) - 1]
+    if pid == "C08":
+        return list(range(1, len(case["lifetimes"])))
+    if pid in ("C14",):
+        return []
+    return list(range(len(case["lifetimes"])))
+
+
+def ddmin_list(items, test, budget, min_keep=0):
+    """classic ddmin on a list; test(sublist) -> True if still failing"""
+    n = 2
+    cur = list(items)
+    while len(cur) > min_keep and budget.ok():
+        chunk = max(1, len(cur) // n)
+        removed = False
+        i = 0
+        while i < len(cur) and budget.ok():
+            cand = cur[:i] + cur[i + chunk:]
+            if len(cand) >= min_keep and len(cand) < len(cur) and test(cand):
+                cur = cand
+                removed = True
+            else:
+                i += chunk
+        if not removed:
+            if chunk == 1:
+                break
+            n = min(len(cur), n * 2)
+    return cur
+
+
+def minimise(prof, case, v, libs, timeout, runs=300, seconds=90.0):
+    target = (v.get("oracle"), v.get("class"))
+    budget = Budget(runs, seconds)
+    best_v = [v]
+
+    def fails(c):
+        budget.used += 1
+        try:
+            viol, _, _ = runner.evaluate(prof, c, libs, timeout)
+        except Exception:
+            return False
+        for x in viol:
+            if _same(x, target):
+                best_v[0] = x
+                return True
+        return False
+
+    cur = copy.deepcopy(case)
+    # ---- 1. drop lifetimes
+    drop = _droppable_lifetimes(prof, cur)
+    if drop:
+        keep_fixed = [i for i in range(len(cur["lifetimes"])) if i not in drop]
+
+        def test_l(sub):
+            c = copy.deepcopy(cur)
+            idx = sorted(keep_fixed + sub)
+            c["lifetimes"] = [cur["lifetimes"][i] for i in idx]
+            return fails(c)
+        kept = ddmin_list(drop, test_l, budget)
+        idx = sorted(keep_fixed + kept)
+        cur["lifetimes"] = [cur["lifetimes"][i] for i in idx]
+    # ---- 2. drop episodes
+    for li in _shrinkable_lifetimes(prof, cur):
+        if li >= len(cur["lifetimes"]) or not budget.ok():
+            continue
+        eps = cur["lifetimes"][li]["episodes"]
+        if len(eps) <= 1:
+            continue
+
+        def test_e(sub, li=li):
+            c = copy.deepcopy(cur)
+            c["lifetimes"][li]["episodes"] = sub
+            return fails(c)
+        cur["lifetimes"][li]["episodes"] = ddmin_list(eps, test_e, budget, min_keep=1)
+    # ---- 3. drop ops inside episodes
+    for li in _shrinkable_lifetimes(prof, cur):
+        if li >= len(cur["lifetimes"]):
+            continue
+        for ei in range(len(cur["lifetimes"][li]["episodes"])):
+            if not budget.ok():
+                break
+            ops = cur["lifetimes"][li]["episodes"][ei]["ops"]
+            if len(ops) <= 1:
+                continue
+
+            def test_o(sub, li=li, ei=ei):
+                c = copy.deepcopy(cur)
+                c["lifetimes"][li]["episodes"][ei]["ops"] = sub
+                return fails(c)
+            cur["lifetimes"][li]["episodes"][ei]["ops"] = ddmin_list(ops, test_o, budget, min_keep=1)
+    # ---- 4. simplify op arguments
+    for li in _shrinkable_lifetimes(prof, cur):
+        if li >= len(cur["lifetimes"]):
+            continue
+        for ei, ep in enumerate(cur["lifetimes"][li]["episodes"]):
+            for oi, op in enumerate(ep["ops"]):
+                if not budget.ok():
+                    break
+                cands = []
+                if op[0] == "run":
+                    cands.append(["iterate_n", max(1, len(op[2]) - 1)])
+                    cands.append(["iterate"])
+                    if len(op[2]) > 2:
+                        cands.append(["run", op[1], [op[2][0], op[2][0] + max(op[1], 0)]])
+                elif op[0] == "iterate_n" and op[1] > 1:
+                    cands.append(["iterate"])
+                    cands.append(["iterate_n", max(1, op[1] // 2)])
+                elif op[0] == "drive" and len(op[1]) > 1:
+                    cands.append(["drive", [["iterate"]], op[2]])
+                    cands.append(["drive", op[1][:max(1, len(op[1]) // 2)], op[2]])
+                elif op[0] == "simulate_script":
+                    cands.append(["simulate_script", {"slices": [1], "ms": 1000}] + op[2:])
+                elif op[0] == "poison" and op[1] != 0:
+                    cands.append(["poison", 0])
+                elif op[0] == "setup_batch" and len(op[1]) > 4:
+                    cands.append(["setup_batch", op[1][:len(op[1]) // 2]])
+                for cand in cands:
+                    c = copy.deepcopy(cur)
+                    c["lifetimes"][li]["episodes"][ei]["ops"][oi] = cand
+                    if fails(c):
+                        cur = c
+                        break
+    # ---- 5. plain re-rendering and 6. structural spec shrinking
+    pid = cur.get("property")
+    spec_ok = pid in ("C01", "C02", "C03", "C09", "C10", "C11") or (pid == "C08" and cur.get("meta", {}).get("twin") is None)
+    for si_ in range(len(cur.get("scripts", [])) if spec_ok else 0):
+        if not budget.ok():
+            break
+        entry = cur["scripts"][si_]
+        if "phys" not in entry or entry["phys"].get("spec") is None:
+            continue
+        try:
+            plain = C.rerender_plain(entry)
+        except Exception:
+            continue
+        for k in entry["phys"]:
+            if k not in plain["phys"]:
+                plain["phys"][k] = entry["phys"][k]
+        c = copy.deepcopy(cur)
+        c["scripts"][si_] = plain
+        if not fails(c):
+            continue            # the violation depends on the rendering: keep it as it is
+        cur = c
+        # structural shrinking on the plain rendering
+        changed = True
+        while changed and budget.ok():
+            changed = False
+            for cand_spec in _spec_candidates(cur["scripts"][si_]["phys"]["spec"]):
+                if not budget.ok():
+                    break
+                e2 = copy.deepcopy(cur["scripts"][si_])
+                e2["phys"]["spec"] = cand_spec
+                try:
+                    Model(cand_spec)
+                    e3 = C.rerender_plain(e2)
+                except Exception:
+                    continue
+                for k in e2["phys"]:
+                    if k not in e3["phys"]:
+                        e3["phys"][k] = e2["phys"][k]
+                c = copy.deepcopy(cur)
+                c["scripts"][si_] = e3
+                if fails(c):
+                    cur = c
+                    changed = True
+                    break
+    cur.setdefault("meta", {})["minimised"] = {"executions": budget.used}
+    return cur, best_v[0]
+
+
+def _spec_candidates(spec):
+    """simpler specs, one change at a time"""
+    out = []
+    m = Model(spec)
+    ns, nc = m.ns, m.nc
+    # drop a reaction
+    for i in range(len(spec["reactions"])):
+        s = copy.deepcopy(spec)
+        del s["reactions"][i]
+        out.append(s)
+    # no chemostats
+    if m.chem.any():
+        s = copy.deepcopy(spec)
+        s["chem"] = None
+        for sp in s["species"]:
+            sp["chst"] = [0] * len(s["envs"])
+        out.append(s)
+    # drop a species that no reaction uses
+    used = set()
+    for r in spec["reactions"]:
+        used.update(r["sub"])
+        used.update(r["prod"])
+    for k, spc in enumerate(spec["species"]):
+        if spc["label"] in used or ns <= 1:
+            continue
+        s = copy.deepcopy(spec)
+        del s["species"][k]
+        if s.get("state") is not None:
+            st = s["state"]
+            s["state"] = st[:k * nc] + st[(k + 1) * nc:]
+        if s.get("chem") is not None:
+            ch = s["chem"]
+            s["chem"] = ch[:k * nc] + ch[(k + 1) * nc:]
+        out.append(s)
+    # single environment
+    if len(spec["envs"]) > 1:
+        s = copy.deepcopy(spec)
+        s["envs"] = s["envs"][:1]
+        for sp in s["species"]:
+            for key in ("D", "dens", "chst"):
+                sp[key] = sp[key][:1]
+        for r in s["reactions"]:
+            r["kf"] = r["kf"][:1]
+            r["kr"] = r["kr"][:1]
+        if s["space"]["type"] == "grid":
+            s["space"]["cell_env"] = [0] * nc
+        else:
+            for n in s["space"]["nodes"]:
+                n["env"] = 0
+        out.append(s)
+    # smaller space
+    sp = spec["space"]
+    if sp["type"] == "grid":
+        for ax in ("w", "h", "d"):
+            if sp[ax] > 1:
+                s = copy.deepcopy(spec)
+                s["space"][ax] = sp[ax] - 1
+                n2 = s["space"]["w"] * s["space"]["h"] * s["space"]["d"]
+                s["space"]["cell_env"] = (sp["cell_env"] * 2)[:n2]
+                s["state"] = None
+                s["chem"] = None
+                out.append(s)
+        if any(b != "reflecting" for b in sp["bc"]):
+            s = copy.deepcopy(spec)
+            s["space"]["bc"] = ["reflecting"] * 3
+            out.append(s)
+    else:
+        for i in range(len(sp["edges"])):
+            s = copy.deepcopy(spec)
+            del s["space"]["edges"][i]
+            out.append(s)
+        if len(sp["nodes"]) > 1:
+            s = copy.deepcopy(spec)
+            last = len(sp["nodes"]) - 1
+            s["space"]["nodes"] = sp["nodes"][:last]
+            s["space"]["edges"] = [e for e in sp["edges"] if e["i"] != last and e["j"] != last]
+            s["state"] = None
+            s["chem"] = None
+            out.append(s)
+    # default state
+    if spec.get("state") is not None:
+        s = copy.deepcopy(spec)
+        s["state"] = None
+        out.append(s)
+    return out
